@@ -260,6 +260,16 @@ func (vc *VC) evalIdent(name string, env *Env) SpecVal {
 			return v
 		}
 	}
+	if vc.fn != nil {
+		// captured variable of a closure: the free variable is the address of the variable's cell
+		for _, fv := range vc.fn.FreeVars {
+			if fv.Name() == name {
+				if pt, ok := fv.Type().Underlying().(*types.Pointer); ok {
+					return vc.loadSpec(env.st, vc.val(fv), pt.Elem())
+				}
+			}
+		}
+	}
 	if g, ok := vc.w.cs.GhostByNm[name]; ok {
 		return ghostVal(vc.ghostGet(env.st, name), g.Sort)
 	}
